@@ -33,6 +33,9 @@ struct Forced {
     overheads: Option<[u128; 4]>,
 }
 
+/// Number of End reads per thread index since `enable` (= completed timed sections).
+static ENDS: Mutex<Vec<u64>> = Mutex::new(Vec::new());
+
 /// Marker carried by the panic raised when the read budget is exhausted.
 pub const HORIZON_PANIC: &str = "divan_verif: clock horizon exceeded";
 
@@ -46,6 +49,7 @@ pub fn enable(frequency: u64, start: u64, read_cost: u64, horizon_reads: u64) {
     READS.store(0, SeqCst);
     HORIZON.store(horizon_reads, SeqCst);
     QUANTUM.store(1, SeqCst);
+    ENDS.lock().unwrap_or_else(|e| e.into_inner()).clear();
     ENABLED.store(true, SeqCst);
 }
 
@@ -73,6 +77,14 @@ pub fn read(edge: Edge) -> Option<u64> {
     let raw = NOW.fetch_add(READ_COST.load(SeqCst), SeqCst);
     let q = QUANTUM.load(SeqCst).max(1);
     let v = raw / q * q;
+    if edge == Edge::End {
+        let t = log::thread_index() as usize;
+        let mut ends = ENDS.lock().unwrap_or_else(|e| e.into_inner());
+        if ends.len() <= t {
+            ends.resize(t + 1, 0);
+        }
+        ends[t] += 1;
+    }
     log::event(
         match edge {
             Edge::Start => Kind::TsStart,
@@ -97,6 +109,12 @@ pub fn forced_frequency() -> Option<NonZeroU64> {
 /// (a clock that advances in uniform steps of `q`).
 pub fn set_quantum(q: u64) {
     QUANTUM.store(q.max(1), SeqCst);
+}
+
+/// Completed timed sections (End reads) of the current thread: its round index.
+pub fn round_of_current_thread() -> u64 {
+    let t = log::thread_index() as usize;
+    ENDS.lock().unwrap_or_else(|e| e.into_inner()).get(t).copied().unwrap_or(0)
 }
 
 pub fn advance(ticks: u64) {
